@@ -3,7 +3,7 @@ import ast
 import copy
 
 from .. import tables
-from ..events import calls_in, fi_of_term, find_wrappers
+from ..events import bind_call, calls_in, fi_of_term, find_wrappers
 from ..flow import get_flow, show, strip_sites, subterms
 from ..model import AnalysisError, first_line, src_of
 from . import gates, loops, marker
@@ -332,3 +332,50 @@ def colour(run, model, rule="C13.colour"):
                 if not (len(t_defs) == 1 and isinstance(t_defs[0].ast, ast.AsyncFunctionDef) and len(f_defs) == 1 and isinstance(f_defs[0].ast, ast.FunctionDef)):
                     bad = "the coroutine-function arm does not define exactly the async wrapper and the other arm the sync one"
         run.check(bad is None, rule, fi.qual, "async wrapper iff inspect.iscoroutinefunction(%s)" % fi.params[0], bad or "", fi.loc(found[0]) if found else fi.loc(), None, first_line(found[0].stmt) if found else None)
+
+
+def body_await(run, model, rule="C13.body-await"):
+    """In an async wrapper the decorated function is awaited where it is called.
+
+    ``await helper(func, ...)`` with a *sync* helper that calls ``func`` only creates the coroutine inside the helper;
+    the body runs when the wrapper awaits the returned coroutine, i.e. after the helper has already undone whatever
+    it arranged around the call (resumed checks, try/finally).  The sync twin of the same code runs the body inside
+    the helper, so the two wrappers stop being equivalent although they look the same modulo ``await``."""
+    w = find_wrappers(model)
+    for role in ("checker[async]", "inv[async]"):
+        fi = w[role]
+        flow = get_flow(model, fi)
+        run.saw(flow)
+        factory = fi.parent
+        direct, through = [], []
+        for n in flow.cfg.nodes:
+            for call, cond, awaited in calls_in(n):
+                ct = flow.term(call.func, n)
+                if ct[0] == "closure" and ct[1][0] == "param" and factory is not None and ct[1][1] in factory.params:
+                    direct.append((n, call, awaited))
+                    continue
+                h = fi_of_term(model, ct)
+                if h is None or isinstance(h.node, ast.AsyncFunctionDef):
+                    continue
+                b = bind_call(h, call)
+                if not b:
+                    continue
+                for pname, aexpr in b.items():
+                    at = flow.term(aexpr, n)
+                    if at[0] == "closure" and at[1][0] == "param" and factory is not None and at[1][1] in factory.params:
+                        # does the sync helper call that parameter?
+                        hflow = get_flow(model, h)
+                        for hn in hflow.cfg.nodes:
+                            for hc, _, haw in calls_in(hn):
+                                if hflow.term(hc.func, hn) == ("param", pname):
+                                    through.append((n, call, h, hn))
+        bad = None
+        if through:
+            n, call, h, hn = through[0]
+            bad = (n, "the decorated function is called inside the sync helper `%s` (line %d) and its coroutine is awaited only after the helper has returned: what the helper arranges around the call is already undone when the body runs -- unlike in the sync wrapper" % (h.name, hn.lineno))
+        for n, call, awaited in direct:
+            if not awaited:
+                bad = bad or (n, "the decorated function is called without `await` in the async wrapper: the caller receives a coroutine object instead of the result")
+        if not direct and not through:
+            bad = (fi.node, "no call of the decorated function was found in the async wrapper")
+        run.check(bad is None, rule, fi.qual, "every call of the decorated function is awaited where it is made", bad[1] if bad else "", fi.loc(bad[0]) if bad else fi.loc(), None, first_line(bad[0]) if bad and not isinstance(bad[0], (ast.FunctionDef, ast.AsyncFunctionDef)) else None)
